@@ -6,9 +6,11 @@ from . import c07
 
 ID = 'C08'
 LEAN_MODULE = 'KernProofs.C08'
-EXTRA_MODULES = ['KernProofs.C08Prefix']
+EXTRA_MODULES = ['KernProofs.C08Prefix', 'KernProofs.C08Range']
 THEOREMS = ['KM.C08.C08_terminator_count', 'KM.C08.C08_terminator_not_doubled', 'KM.C08.C08_no_terminator_without_range', 'KM.C08.C08_terminator_cells', 'KM.C08.C08_body_is_full_score_rows', 'KM.C08.C08_nested_split_witness',
-            'KM.C08P.bodyRows_prefix', 'KM.C08P.toStage_le', 'KM.C08P.C08_excerpt_from_start', 'KM.C08P.bodyRows_range_free']
+            'KM.C08P.bodyRows_prefix', 'KM.C08P.toStage_le', 'KM.C08P.C08_excerpt_from_start', 'KM.C08P.bodyRows_range_free',
+            'KM.C08R.preambleRow_quiet', 'KM.C08R.preambleRow_header', 'KM.C08R.loop_chain', 'KM.C08R.loop_aligned', 'KM.C08R.preamble_flat', 'KM.C08R.sigCancelled_false',
+            'KM.C08R.signatureRows_settled', 'KM.C08R.C08_preamble_flat', 'KM.C08R.C08_excerpt_flat', 'KM.C08R.C08_excerpt_spec', 'KM.C08R.toy_in_core']
 FINGERPRINTS = ['exporter.Exporter.export_string', 'exporter.Exporter.is_signature_cancelled', 'exporter.Exporter.export_token', 'importer.Importer',
                 'document.Document', 'document.SignatureNodes']
 RULE = ('core stream: generated **kern-only documents whose signatures precede the first measure (the same kinds in every spine), whose splits are '
@@ -141,6 +143,16 @@ def explore(ctx, depth):
                 tie_ok = got == model
                 first_results[(a, b)] = got
                 ctx.check({**inp, 'clause': 'tie'}, got, model, None, nontrivial=(a or 0) > 1, what='excerpt differs from the model')
+                # the Lean specification of a later excerpt on the core of C08_excerpt_spec (no spine path split, joined, added or ended above the
+                # first line of the excerpt; every signature above it): header line, signatures in force, the lines of the measures, terminator
+                sp08 = mr['spec08'][k] if 'spec08' in mr else None
+                if sp08 is not None:
+                    ctx.count('lean_excerpt_spec')
+                    if (a or 0) > 1:
+                        ctx.count('lean_excerpt_spec:from>1')
+                    if got != sp08:
+                        ctx.fail({**inp, 'clause': 'Lean specification of a later excerpt (C08_excerpt_spec)'},
+                                 'the excerpt is not header line + signatures in force + the lines of the measures + terminator', impl=got, expected=sp08)
                 klass = classify(case.adoc, a)
 
                 def bad(clause, what, impl=None, expected=None):
